@@ -182,6 +182,19 @@ func (e *Env) actorOfDid(did string) *Actor {
 	return nil
 }
 
+// forgeSid: for the "sidforge" variant the request names the victim's sid DID as owner while it is
+// signed with a key of the signer's own sid; returns the victim DID, or "" when not applicable.
+func (e *Env) forgeSid(tam string, signer *Actor, metaOwner string) string {
+	if tam != "sidforge" {
+		return ""
+	}
+	own := e.sidCreatedBy(signer)
+	if !strings.HasPrefix(metaOwner, "did:sid:") || own == "" || own == metaOwner {
+		return ""
+	}
+	return metaOwner
+}
+
 func (e *Env) jwsAs(signer *Actor, sidDid string, p marshaler, tam string, alt marshaler) saotypes.JwsSignature {
 	bz, _ := p.Marshal()
 	if tam == "payload" && alt != nil {
@@ -190,6 +203,10 @@ func (e *Env) jwsAs(signer *Actor, sidDid string, p marshaler, tam string, alt m
 	var s saotypes.JwsSignature
 	if sidDid != "" {
 		root := strings.TrimPrefix(sidDid, "did:sid:")
+		if tam == "sidforge" {
+			// the kid names the victim's sid but the key document version of the signer's own sid
+			root = strings.TrimPrefix(e.sidCreatedBy(signer), "did:sid:")
+		}
 		vers := e.Cur.Did.SidVersions[root]
 		idx := len(vers) - 1
 		if idx < 0 {
@@ -482,6 +499,13 @@ func (e *Env) build(op *Op) (*Built, string) {
 		if op.Tam == "ownerfield" && mo != "" {
 			p.Owner = mo
 		}
+		if op.Tam == "sidforge" {
+			v := e.forgeSid(op.Tam, signer, mo)
+			if v == "" {
+				return nil, "no-forge"
+			}
+			p.Owner, sidDid = v, v
+		}
 		sig := e.jwsAs(signer, sidDid, &p, op.Tam, &alt)
 		return &Built{Msgs: []sdk.Msg{saotypes.NewMsgTerminate(a.AddrS, p, sig, prov.AddrS)}, Signer: a,
 			Auth: &AuthTruth{SignerDid: sdid, Intact: op.Tam == "" || (op.Tam == "ownerfield" && p.Owner == sdid), DataIds: []string{d.DataId}, Kind: "terminate"}}, ""
@@ -511,6 +535,13 @@ func (e *Env) build(op *Op) (*Built, string) {
 		alt.Duration = op.Dur + 1
 		if op.Tam == "ownerfield" && mo != "" {
 			p.Owner = mo
+		}
+		if op.Tam == "sidforge" {
+			v := e.forgeSid(op.Tam, signer, mo)
+			if v == "" {
+				return nil, "no-forge"
+			}
+			p.Owner, sidDid = v, v
 		}
 		sig := e.jwsAs(signer, sidDid, &p, op.Tam, &alt)
 		return &Built{Msgs: []sdk.Msg{saotypes.NewMsgRenew(a.AddrS, &p, &sig, prov.AddrS)}, Signer: a,
@@ -558,6 +589,13 @@ func (e *Env) build(op *Op) (*Built, string) {
 		alt.ReadonlyDids = []string{signer.Did}
 		if op.Tam == "ownerfield" && mo != "" {
 			p.Owner = mo
+		}
+		if op.Tam == "sidforge" {
+			v := e.forgeSid(op.Tam, signer, mo)
+			if v == "" {
+				return nil, "no-forge"
+			}
+			p.Owner, sidDid = v, v
 		}
 		sig := e.jwsAs(signer, sidDid, &p, op.Tam, &alt)
 		return &Built{Msgs: []sdk.Msg{saotypes.NewMsgUpdataPermission(a.AddrS, p, sig, prov.AddrS)}, Signer: a,
@@ -703,7 +741,7 @@ func (e *Env) buildStore(op *Op, a *Actor) (*Built, string) {
 		Duration:  op.Dur,
 		Replica:   op.Rep,
 		Timeout:   op.Tmo,
-		Alias:     fmt.Sprintf("alias-%d", op.D),
+		Alias:     aliasOf(op.D),
 		DataId:    d.DataId,
 		CommitId:  commitField,
 		Cid:       makeCid(fmt.Sprintf("cid-%d-%d-%d", e.W.Cfg.Seed, op.D, ver)),
@@ -721,6 +759,13 @@ func (e *Env) buildStore(op *Op, a *Actor) (*Built, string) {
 	if op.Tam == "ownerfield" && owner != nil {
 		p.Owner = meta.Owner
 	}
+	if op.Tam == "sidforge" {
+		v := e.forgeSid(op.Tam, signer, meta.Owner)
+		if v == "" {
+			return nil, "no-forge"
+		}
+		p.Owner, sidDid = v, v
+	}
 	alt := p
 	alt.Size_ = p.Size_ + 1
 	sig := e.jwsAs(signer, sidDid, &p, op.Tam, &alt)
@@ -728,4 +773,17 @@ func (e *Env) buildStore(op *Op, a *Actor) (*Built, string) {
 	return &Built{Msgs: []sdk.Msg{saotypes.NewMsgStore(a.AddrS, &p, &sig, prov.AddrS)}, Signer: a,
 		Auth: &AuthTruth{SignerDid: sdid, Intact: op.Tam == "" || (op.Tam == "ownerfield" && p.Owner == sdid), DataIds: []string{d.DataId}, Kind: "store"},
 		Info: "commit=" + commitField}, ""
+}
+
+
+// aliasOf: most models carry their own alias; some are stored without one, and a few share one
+// alias (the same owner storing a second model under it is refused by the chain).
+func aliasOf(d int) string {
+	switch {
+	case d%7 == 3:
+		return ""
+	case d%11 == 5:
+		return "shared"
+	}
+	return fmt.Sprintf("alias-%d", d)
 }
